@@ -28,7 +28,11 @@ CMP = ('Lt', 'Le', 'Gt', 'Ge', 'Eq', 'Ne')
 def units_of(ctx):
     c = ctx.__dict__.setdefault('_model_cache', {})
     if 'units' not in c:
-        c['units'] = Units(ctx, seeds=SEEDS)
+        rs = {}
+        if getattr(ctx, '_h5_ok', False):
+            # H5 tabulated get_position: the byte offset of character k becomes k - its result is a character position
+            rs['token::ui_token::UiTokenCollection::get_position'] = {CHARS}
+        c['units'] = Units(ctx, seeds=SEEDS, ret_seeds=rs)
     return c['units']
 
 
@@ -103,8 +107,12 @@ def h1_units(ctx, rid='H1', scope=None):
                                                                        U.explain(b, l, sorted(ul)[0]), U.explain(b, r, sorted(ur - ul or ur)[0])), site=s['loc'])
     # (c) the byte->char map is indexed with byte offsets only
     gp = F.one(r'^token::ui_token::UiTokenCollection::get_position$')
-    gm = F.one(r'^token::ui_token::UiTokenCollection::generate_char_map$')
     ctx.fn(gp)
+    if getattr(ctx, '_h5_ok', False):
+        ctx.ok(rid, 'the byte -> character map and get_position are decided by the table of H5 (any data structure)', 'table', site=gp.loc)
+        ctx.ok(rid, 'get_position returns a character offset (H5)', 'table', site=gp.loc)
+        return _h1_tail(ctx, rid, U, F)
+    gm = F.one(r'^token::ui_token::UiTokenCollection::generate_char_map$')
     ctx.fn(gm)
     per_byte = list(gm.calls(r'char::methods::<impl char>::len_utf8$')) and len(gm.loops()) >= 2
     pushes = [t for _, t in gm.calls(r'Vec::<.*>::push$')]
@@ -132,6 +140,10 @@ def h1_units(ctx, rid='H1', scope=None):
         ctx.finding(rid, 'get_position/result', 'get_position returns %s, expected a character offset on every path' % fmt(ru), site=gp.loc)
     else:
         ctx.ok(rid, 'get_position returns a character offset on every path', 'units', site=gp.loc)
+    return _h1_tail(ctx, rid, U, F)
+
+
+def _h1_tail(ctx, rid, U, F):
     n_gp = 0
     for b in F.src_bodies():
         for bid, t in b.calls(r'^token::ui_token::UiTokenCollection::get_position$'):
@@ -642,3 +654,85 @@ def h4_kinds(ctx, rid='H4'):
 
 
 RULES = [('H1', h1_units), ('H2', h2_haystack), ('H3', h3_protocol), ('H4', h4_kinds)]
+
+
+def h5_position_table(ctx, rid='H5'):
+    """H5 the byte offset of the k-th character of a line becomes the character position k, and the byte length of the line the
+    number of its characters: tabulated (E6c on symbolic strings) by walking UiTokenCollection::new and get_position for every
+    line of up to three characters of 1..4 bytes each and every character boundary - whatever data structure and search the
+    map uses (a per-byte vector, a vector of character starts searched by bisection, ..)."""
+    from ..absint import Machine, Unknown
+    from .. import absstr
+    ctx.rule(rid, 'byte offset -> character position, tabulated over character widths', floor=80)
+    new = ctx.facts.one(r'^token::ui_token::UiTokenCollection::new$')
+    gp = ctx.facts.one(r'^token::ui_token::UiTokenCollection::get_position$')
+    ctx.fn(new)
+    ctx.fn(gp)
+    if gp.argc != 2:
+        raise AnchorLost('get_position: expected (&self, byte offset), found %d parameters' % gp.argc)
+
+    def width(sym_):
+        m_ = re.fullmatch(r'c\d+w(\d)', str(sym_))
+        return int(m_.group(1)) if m_ else None
+
+    def model(m, path, args, t):
+        a0 = m.deref_value(args[0]) if args else None
+        if absstr.is_str(a0) and all(width(x) for x in a0[1]):
+            if re.search(r'(string::String|str::<impl str>)::len$', path):
+                return sum(width(x) for x in a0[1])
+            if re.search(r'str::<impl str>::char_indices$', path):
+                out, off = [], 0
+                for x in a0[1]:
+                    out.append(('tuple', [off, x]))
+                    off += width(x)
+                return ('it', out, 'char_indices')
+            if re.search(r'str::<impl str>::(bytes|as_bytes)$', path):
+                raise Unknown('the line is read byte by byte (%s)' % path.rsplit('::', 1)[-1])
+        if re.search(r'char::methods::<impl char>::len_utf8$', path) and args:
+            w = width(m.deref_value(args[0]))
+            if w is None:
+                raise Unknown('len_utf8 of %r' % (m.deref_value(args[0]),))
+            return w
+        return absstr.std_model(m, path, args, t)
+    enter = lambda path: path.startswith('token::ui_token::') or path.startswith('<token::ui_token::')
+    n = 0
+    bad = {}
+    for k in range(0, 4):
+        for ws in itertools.product((1, 2, 3, 4), repeat=k):
+            line = ('str', ['c%dw%d' % (j + 1, w) for j, w in enumerate(ws)])
+            try:
+                m = Machine(new, model, max_steps=20000)
+                m.enter = enter
+                m.env['line'] = line
+                m.env[1] = ('ptr', 'line', ())
+                if m.run(0) != 'return':
+                    raise Unknown('UiTokenCollection::new did not return')
+                coll = m.deref_value(m.load(0))
+                starts = [sum(ws[:j]) for j in range(k + 1)]       # byte offset of character j; the last one is the byte length
+                for j, off in enumerate(starts):
+                    m2 = Machine(gp, model, max_steps=20000)
+                    m2.enter = enter
+                    m2.env['coll'] = coll
+                    m2.env[1] = ('ptr', 'coll', ())
+                    m2.env[2] = off
+                    if m2.run(0) != 'return':
+                        raise Unknown('get_position did not return')
+                    got = m2.deref_value(m2.load(0))
+                    n += 1
+                    if isinstance(got, int) and int(got) == j:
+                        ctx.ok(rid, 'widths %s: byte offset %d -> character %d' % (list(ws), off, j), 'table', site=gp.loc, sample=(n in (2, 30, 200)))
+                    else:
+                        kind = 'end-of-line' if j == k else 'character-start'
+                        bad.setdefault(kind, 'in a line whose characters take %s bytes the byte offset %d (%s) becomes position %r, expected %d'
+                                       % (list(ws), off, 'the end of the line' if j == k else 'start of character %d' % j, got, j))
+            except Unknown as ex:
+                ctx.finding(rid, 'char-map/not-extractable', 'the byte offset -> character position map could not be tabulated (characters of %s bytes): %s' % (list(ws), ex), site=gp.loc)
+                return False
+    for kind, what in sorted(bad.items()):
+        ctx.finding(rid, 'char-map/%s' % kind, what, site=gp.loc)
+    ctx.analysed(rid, '%d (line, boundary) pairs: lines of 0..3 characters of 1..4 bytes' % n)
+    ctx._h5_ok = not bad
+    return not bad
+
+
+RULES = [('H5', h5_position_table)] + RULES
